@@ -12,7 +12,7 @@
    the current form; `_partial` is what holds for both. *)
 From Coq Require Import String ZArith List Bool.
 From DV Require Import Model.PyPrims Gen.ReaderLoops Model.Tokenizer Model.Newick Model.C20Model Model.C20Nexus
-                       Proofs.C20Proofs Proofs.C20NexusProofs.
+                       Proofs.C20Proofs Proofs.C20NexusProofs Proofs.C20Tok Proofs.C20Newick.
 Import ListNotations.
 Close Scope string_scope.
 Open Scope list_scope.
@@ -194,3 +194,42 @@ Theorem nexus_skeleton_total_partial :
   end.
 Proof. exact skip_to_semicolon_total. Qed.
 Print Assumptions nexus_skeleton_total_partial.
+
+(* ========================================================================================== *)
+(* 5. tokenizer and Newick reader (C02's models Model/Tokenizer.v, Model/Newick.v)             *)
+(* ========================================================================================== *)
+
+(* The contract of the fetch primitives that the progress rule of section 1 relies on: for EVERY
+   tokenizer configuration and character list, `__next__` returns a token and strictly shortens
+   the input, or reports end of stream, or raises UnterminatedQuoteError (a DataParseError). *)
+Theorem tokenizer_progress : forall (cfg : tok_cfg) (s : Tokenizer.str),
+  match next_token cfg s with
+  | TTok t q cs rest => (length rest < length s)%nat
+  | TEof _ => True
+  | TErr e => e = ParseErr
+  | TFuel => False
+  end.
+Proof. exact tokenizer_progress_l. Qed.
+Print Assumptions tokenizer_progress.
+
+Theorem tokenize_total : forall (cfg : tok_cfg) (s : Tokenizer.str),
+  snd (tokenize cfg s) <> EndFuel /\ (forall e, snd (tokenize cfg s) = EndErr e -> e = ParseErr).
+Proof. exact tokenize_total_l. Qed.
+Print Assumptions tokenize_total.
+
+(* NewickReader._read for EVERY character list, namespace, edge-length parser, str.lower and option
+   setting with terminating_semicolon_required = True (the default): trees (inductive values: every
+   returned tree is a finite, well-formed rose tree by construction) or DataParseError; the reader
+   never runs out of the fuel 2 * tokens + 8.  (CPython's recursion limit, which turns nesting deeper
+   than about 1000 into RecursionError, is outside the model; the harness tests it.) *)
+Theorem newick_reader_total :
+  forall (L : Type) (parse_len : Tokenizer.str -> option L) (lower : Tokenizer.str -> Tokenizer.str)
+         (o : ropts) (ns : list Tokenizer.str) (text : Tokenizer.str),
+  ro_terminating_semicolon_required o = true ->
+  match read_newick L parse_len lower o ns text with
+  | Ok _ => True
+  | Err e => e = ParseErr
+  | OutOfFuel => False
+  end.
+Proof. exact newick_reader_total_l. Qed.
+Print Assumptions newick_reader_total.
